@@ -7,6 +7,7 @@
    means the same thing on the next call. *)
 From stdpp Require Import strings gmap sets fin_sets.
 From CG Require Export Base.Cases Model.Miter Model.FastEval.
+From CG Require Model.Lint.
 Open Scope string_scope.
 
 Inductive call := Call (Ca : Circuit) (Cbo : option Circuit) (So Eo : option (list string)) (obs : res Circuit)
@@ -53,6 +54,10 @@ Definition holds1 (k : call) : bool :=
     negb (precond Ca Cb S E) ||
     let gm := c_g M in
     bool_decide (c_bbs M = ∅) &&
+    (* C20's clause for this producer: lint-clean circuits with the same interface, every input tied, give a lint-clean miter *)
+    (negb (Lint.lint_cleanb Ca && Lint.lint_cleanb Cb && bool_decide (sS = inputs ga) && bool_decide (sS = inputs gb) &&
+           bool_decide (of_type ga (λ t, is_ty BbIn t || is_ty BbOut t) ∪ of_type gb (λ t, is_ty BbIn t || is_ty BbOut t) = ∅))
+     || Lint.lint_cleanb M) &&
     bool_decide (inputs gm = sS) && bool_decide (outputs gm = {["sat"]}) &&
     bool_decide (dom gm = sS ∪ smap (pre "c0") (dom ga) ∪ smap (pre "c1") (dom gb) ∪ {["sat"]} ∪ smap (pre "dif") sE) &&
     same_attrs (pre "c0") (strip_io ga) gm && same_attrs (pre "c1") (strip_io gb) gm &&
